@@ -3,3 +3,7 @@ import Ufw.Props.C07
 #print axioms Ufw.Props.C07.accepted_payload_checksum
 #print axioms Ufw.Props.C07.rejected_not_executed
 #print axioms Ufw.Props.C07.damaged_frame_reception
+#print axioms Ufw.Props.C07.crc_burst16
+#print axioms Ufw.Props.C07.header_burst_rejected
+#print axioms Ufw.Props.C07.payload_burst_rejected
+#print axioms Ufw.Props.C07.burst_across_size_and_checksum_accepted
